@@ -156,7 +156,11 @@ func CheckLDAPUserPassword(u url.URL, bindDN string, bindPassword string, timeou
 	err = conn.Bind(bindDN, bindPassword)
 	if err != nil {
 		log.Printf("Bind failure for server:%s bindDN:'%s' (%s)", server, bindDN, err.Error())
-		if strings.Contains(err.Error(), "Invalid Credentials") {
+		// Only the invalidCredentials result code is the directory's verdict
+		// on the password. The text of an error is not: a server that
+		// answers with another result code (busy, unavailable, ...) may
+		// mention those words in its diagnostic message.
+		if ldap.IsErrorWithCode(err, ldap.LDAPResultInvalidCredentials) {
 			return false, nil
 		}
 		return false, err
